@@ -7,6 +7,23 @@ import (
 	"verif/tools/internal/ir"
 )
 
+// DumpTemplates prints emission templates (developer aid).
+func DumpTemplates(repo *core.Repo, dir string) {
+	c := &Ctx{Repo: repo, R: core.NewReport("dump", "quick", "/tmp")}
+	f := c.LoadFC(dir)
+	if f == nil {
+		return
+	}
+	sh := newShaper(f)
+	for _, fn := range f.Prog.Funcs {
+		if !fn.Generated {
+			continue
+		}
+		t, _ := sh.Template(fn.Name)
+		fmt.Printf("%s :: %s\n", fn.Name, t)
+	}
+}
+
 // Dump prints normal forms (developer aid).
 func Dump(repo *core.Repo, dir, only string) {
 	m, err := repo.Load(dir, false)
